@@ -183,6 +183,25 @@ def build_items(case: Case) -> list[Item]:
                     exp = canon.cerr(e)
                 m = f"(dumps {cfg} {ty} {structs.value_term(v, T)})"
                 items.append(Item(case, op, f"rb_eqb {m} {exp}", m, ("construct", v, d)))
+            elif op[0] == "plan":
+                # the generated source of the compiled reader, parsed into instructions, against the model of the generator (Model/Compiler.v)
+                from . import plansrc
+
+                m = f"(compile_ty {cfg} {ty})"
+                if getattr(T, "__compiled__", False):
+                    try:
+                        pl = plansrc.parse_source(T._read.__func__.__source__)
+                    except plansrc.PlanSyntax as e:
+                        items.append(Item(case, op, "false", m, ("plan-syntax", str(e))))
+                        continue
+                    items.append(Item(case, op, f"plan_eqb {m} (Ok {plansrc.plan_term(pl)})", m, ("plan", pl)))
+                else:
+                    items.append(Item(case, op, f"plan_eqb {m} (Err EType)", m, ("plan", "not compiled")))
+            elif op[0] == "parse_plan":
+                # the implementation's reader against the model of the generated statements (run_plan over the model's plan)
+                r = structs.parse(cs, case.tname, op[1], op[2])
+                m = f"(read_compiled_top {cfg} {ty} {canon.cbytes(op[1])} {cz(op[2])})"
+                items.append(Item(case, op, f"rvz_eqb_coarse {m} {structs.read_result_term(r, T)}", m, r))
             elif op[0] == "layout":
                 offs, size, al = layout_of(T)
                 exp = f"(Ok (mkLay {clist((copt(o, cz) for o in offs), '(option Z)')} {copt(size, cz)} {cz(al)}))"
@@ -195,19 +214,19 @@ def build_items(case: Case) -> list[Item]:
     return items
 
 
-def run_items(run: Run, items: list[Item], per: int = 120, label: str = "corr_struct") -> list[Item]:
+def run_items(run: Run, items: list[Item], per: int = 120, label: str = "corr_struct", imports: str = IMPORTS) -> list[Item]:
     """Evaluate all item expressions in coqc; returns the disagreeing items."""
     live = [it for it in items if it.expr is not None]
     shards = ["Definition checks : list bool := [\n" + ";\n".join("  " + it.expr for it in live[i:i + per]) + "\n]."
               for i in range(0, len(live), per)]
-    res, errs = run_shards(run.prop, shards, IMPORTS, timeout=900)
+    res, errs = run_shards(run.prop, shards, imports, timeout=900)
     for e in errs:
         run.violation({"kind": "correspondence", "theorem_or_correspondence": label, "error": e[:1500]}, tag="corr-shard-error", no_input=True)
     return [live[k * per + i] for k, idx in enumerate(res) for i in idx]
 
 
-def probe(run: Run, it: Item) -> str:
-    out = coq_eval(run.prop, IMPORTS, f"Eval vm_compute in {it.model_expr}.\n")
+def probe(run: Run, it: Item, imports: str = IMPORTS) -> str:
+    out = coq_eval(run.prop, imports, f"Eval vm_compute in {it.model_expr}.\n")
     return out.strip()[-1500:]
 
 
@@ -217,12 +236,12 @@ def impl_str(x) -> str:
     return repr(x)[:300]
 
 
-def report_unexplained(run: Run, mism: list[Item], explained: set, label: str) -> None:
+def report_unexplained(run: Run, mism: list[Item], explained: set, label: str, imports: str = IMPORTS) -> None:
     un = [it for it in mism if id(it) not in explained]
     if not un:
         return
     it = min(un, key=lambda i: len(i.case.text) + sum(len(o[1]) for o in [i.op] if len(o) > 1 and isinstance(o[1], bytes)))
     run.violation({"kind": "correspondence", "theorem_or_correspondence": label, **it.case.describe(),
                    "op": [x.hex() if isinstance(x, bytes) else x for x in it.op], "implementation": impl_str(it.impl),
-                   "model": probe(run, it), "count": len(un)},
+                   "model": probe(run, it, imports), "count": len(un)},
                   tag="corr-" + str(abs(hash((it.case.text, repr(it.op)))) % 10 ** 8), no_input=True)
